@@ -23,6 +23,8 @@ def run(ctx):
     U.port_drop_table(ctx, "R4p", "normalize_url", n.port, n.site)
     U.netloc_template(ctx, "R4n")
     combo_values_whole(ctx, "R6")
+    from . import common_quote as Q
+    Q.rule_upper_quoted(ctx, "R7")
 
 
 # ----------------------------------------------------------------------
